@@ -31,6 +31,7 @@
 (*   inst   container |-> instance                                            *)
 (*   paths  instance |-> sequence of node paths in registration order         *)
 (*          (running, endpoints..., identity)                                 *)
+(*   cpaths container |-> its own such sequence, where it differs (else empty) *)
 (*   data   host |-> container |-> sequence of node data (same indexing)      *)
 (*   kidx   indexes of the paths presence.kill_node removes (running and      *)
 (*          endpoints, not the identity)                                      *)
@@ -74,8 +75,12 @@ IndexIn(seq, x) == CHOOSE i \in DOMAIN seq : seq[i] = x
 (* scenario helpers *)
 HostSet(S) == Range(S.hosts)
 ContSet(S) == Range(S.conts)
-CPaths(S, c) == S.paths[S.inst[c]]
-AllPaths(S) == UNION {Range(S.paths[a]) : a \in DOMAIN S.paths}
+(* the nodes of container c: those of its instance, unless the scenario gives  *)
+(* the container a list of its own (cpaths: e.g. the instance was assigned     *)
+(* another identity when it was scheduled again)                              *)
+CPaths(S, c) == IF c \in DOMAIN S.cpaths THEN S.cpaths[c] ELSE S.paths[S.inst[c]]
+AllPaths(S) == UNION ({Range(S.paths[a]) : a \in DOMAIN S.paths}
+                      \cup {Range(S.cpaths[c]) : c \in DOMAIN S.cpaths})
 Newer(S, c1, c2) == /\ S.inst[c1] = S.inst[c2]
                     /\ IndexIn(S.conts, c1) > IndexIn(S.conts, c2)
 
@@ -107,6 +112,8 @@ InitSt(S) ==
    queue   |-> [h \in HostSet(S) |-> <<>>],       \* pending request events <<kind, c>>
    pc      |-> [h \in HostSet(S) |-> IdlePc],     \* request in flight
    fs      |-> [h \in HostSet(S) |-> FALSE],      \* in-flight request saw a foreign owner
+   own     |-> [h \in HostSet(S) |-> {}],         \* observer (trace spec only): paths the request
+                                                  \* in flight has read as nodes of its own session
    watches |-> {},                                \* [h, p, c]: data watch of h's service
    claimed |-> [h \in HostSet(S) |-> <<>>],       \* path -> container entitled to the node (Claim)
    order   |-> <<>>,                              \* containers in submission order
@@ -604,7 +611,7 @@ PEndDo(st_) == [st_ EXCEPT !.pub = NoPub, !.last = NoLast]
 
 -----
 Scn == [hosts |-> Hosts, conts |-> Conts, inst |-> InstOf, paths |-> PathsOf,
-        defects |-> Defects, kidx |-> {1} \cup PerCont, ext |-> Ext,
+        defects |-> Defects, kidx |-> {1} \cup PerCont, ext |-> Ext, cpaths |-> <<>>,
         data |-> [h \in Range(Hosts) |-> [c \in Range(Conts) |->
                     [k \in 1..Len(PathsOf[InstOf[c]]) |->
                         IF k \in PerCont THEN <<h, c>> ELSE <<h>>]]]]
